@@ -126,16 +126,19 @@ def work(job):
             built.append(('%s#%d' % (cid, n), tag, ch, hist, dm, kind))
     run = []
     refs = {}
+    # faults in exit handlers are also run with a cancel() at the end of the history: the completion path runs the exit handlers of
+    # every state that is still active (a different piece of code than an ordinary exit)
+    built += [(vid + 'c', tag, ch, hist, dm, kind) for vid, tag, ch, hist, dm, kind in built if tag.startswith('onexit:')]
     for vid, tag, ch, hist, dm, kind in built:
-        ref = FaultRef(ch); ref.interpret(hist)
+        ref = FaultRef(ch); ref.interpret(hist, cancel_end=vid.endswith('c'))
         refs[vid] = ref
         if ref.diverged: continue
-        run.append({'id': vid, 'xml': render_cond(ch, dm), 'engine': 'large', 'hist': hist})
+        run.append({'id': vid, 'xml': render_cond(ch, dm), 'engine': 'large', 'hist': hist, 'flags': ['cancelend'] if vid.endswith('c') else []})
     res = c01lib.run_batch(binary, run)
     out = []
     for vid, tag, ch, hist, dm, kind in built:
         ref = refs[vid]
-        rec = {'id': vid, 'kind': kind, 'where': tag.split(':')[0], 'dm': dm, 'v': 'ok', 'hash': vid}
+        rec = {'id': vid, 'kind': kind, 'where': tag.split(':')[0] + ('+cancel' if vid.endswith('c') else ''), 'dm': dm, 'v': 'ok', 'hash': vid}
         if ref.diverged: rec['v'] = 'diverged'; out.append(rec); continue
         p = res[vid]
         rec['errors_expected'] = sum(1 for e in ref.raised if e.startswith('error.'))
@@ -153,7 +156,7 @@ def work(job):
                 k2 = None
                 if k in ('history-target-static-domain', 'nested-history-shared-store'): k2 = 'c01:' + k
                 else:
-                    r2 = FaultRef(ch, ('static_domain',)); r2.interpret(hist)
+                    r2 = FaultRef(ch, ('static_domain',)); r2.interpret(hist, cancel_end=vid.endswith('c'))
                     if not r2.diverged and c01lib.compare_case(ch, hist, dm, 'large', p, r2)[0] == 'ok': k2 = 'c01:history-target-static-domain'
                 if k2: rec['v'] = 'c01-finding'
                 else:
